@@ -492,6 +492,22 @@ theorem statement_positions (t : List Char) :
   ⟨stmts_bodies t, stmts_pos t, stmts_sorted t, openStart_pos t,
     by unfold Unterminated; exact not_congr (openStart_none_iff t)⟩
 
+/-- **Every reported index points inside the template**: each recorded syntax error – top level or inherited from any
+    nesting depth, where the starts of the enclosing statements add up – has an index below the template's rune
+    count. -/
+theorem error_index_inside_template (reg : Registry) (opt : Bool) (t : List Char) (stages : List Stage)
+    (errs : List CErr) (h : compile reg opt t = .ok (stages, errs)) :
+    ∀ e ∈ errs, (e.kind = .unterminated ∨ e.kind = .emptyStatement ∨ e.kind = .missingFunction) →
+      e.index < t.length := by
+  intro e he hk
+  have hx := syntax_errors_exact reg opt t stages errs h
+  have hi := synErrsF_index splitArgs (fun name => (reg name).isSome) (fun _ _ h => splitArgs_length h) (t.length + 1) t
+  obtain ⟨k, hk'⟩ : ∃ k, synKindOf e.kind = some k := by
+    rcases hk with hk | hk | hk <;> rw [hk] <;> exact ⟨_, rfl⟩
+  have hm := mem_synOf he hk'
+  rw [hx] at hm
+  exact hi _ hm
+
 /-! ### errors.go: what the user sees -/
 
 /-- The texts of the model's error rendering are the source's: the three sentinel messages, the format of
